@@ -111,7 +111,9 @@ def check_c07(case, stats=None):
                 name_ok = (c.args[0] & 3) != 2
                 if had or exists:
                     cnt("second_register")
-                    if r.ret != EEXIST and not (not name_ok and r.ret < 0):
+                    if deny and r.ret < 0:
+                        cnt("second_register_from_deny_ctx_callback")       # refused: which error is not specified
+                    elif r.ret != EEXIST and not (not name_ok and r.ret < 0):
                         bad("second-register-accepted" if r.ret >= 0 else "second-register-wrong-error", "m_ctx_register on a thread that already has a context returned %d (expected -EEXIST)" % r.ret, r)
                 elif not name_ok:
                     if r.ret >= 0:
